@@ -310,12 +310,20 @@ Proof.
 Qed.
 
 (* ---------------------------------------------------------------- what is wanted does not change during an apply *)
-Definition same_wants (s s' : st) : Prop := s_des s' = s_des s ∧ ∀ n, wants s' n = wants s n.
+Definition same_wants (s s' : st) : Prop :=
+  s_des s' = s_des s ∧ (∀ n, wants s' n = wants s n) ∧ s_all s' = s_all s ∧ s_filter s' = s_filter s
+  ∧ (∀ n, is_Some (s_all s !! n) → fst <$> (s_trk s' !! n) = fst <$> (s_trk s !! n)).
 
 Lemma same_wants_refl s : same_wants s s.
 Proof. done. Qed.
 Lemma same_wants_trans s1 s2 s3 : same_wants s1 s2 -> same_wants s2 s3 -> same_wants s1 s3.
-Proof. intros [H1 H2] [H3 H4]. split; [congruence|]. intros n. rewrite H4. apply H2. Qed.
+Proof.
+  intros (A1 & A2 & A3 & A4 & A5) (B1 & B2 & B3 & B4 & B5). split_and!; [congruence| |congruence|congruence|].
+  - intros n. rewrite B2. apply A2.
+  - intros n Hn. rewrite B5 by (by rewrite A3). by apply A5.
+Qed.
+Lemma sw_wants s s' : same_wants s s' -> ∀ n, wants s' n = wants s n.
+Proof. intros H. apply H. Qed.
 
 Lemma sw_rq_add_must n s : same_wants s (rq_add_must n s).
 Proof. unfold rq_add_must. case_bool_decide; done. Qed.
@@ -329,19 +337,23 @@ Proof. unfold upd_dirty. repeat case_match; done. Qed.
 Lemma sw_set_trk_keep M md X s mp :
   s_trk s !! M = Some (md, mp) -> same_wants s (set_trk <[M := (md, X)]> s).
 Proof.
-  intros H. split; [done|]. intros n. unfold wants. simpl.
-  destruct (decide (n = M)) as [->|]; [rewrite lookup_insert, H; done|]. rewrite lookup_insert_ne by done. done.
+  intros H. split_and!; try done.
+  - intros n. unfold wants. simpl.
+    destruct (decide (n = M)) as [->|]; [rewrite lookup_insert, H; done|]. rewrite lookup_insert_ne by done. done.
+  - intros n _. simpl. destruct (decide (n = M)) as [->|]; [by rewrite lookup_insert, H|by rewrite lookup_insert_ne].
 Qed.
 
 Lemma sw_foldr {A} (f : A → st → st) l s : (∀ a s, same_wants s (f a s)) -> same_wants s (foldr f s l).
 Proof. intros H. induction l; simpl; [done|]. eapply same_wants_trans; [done|apply H]. Qed.
 
 Lemma sw_by_fields s s' M md mp :
-  s_trk s !! M = Some (md, mp) -> s_des s' = s_des s ->
+  s_trk s !! M = Some (md, mp) -> s_des s' = s_des s -> s_all s' = s_all s -> s_filter s' = s_filter s ->
   (∀ n, n ≠ M → s_trk s' !! n = s_trk s !! n) -> (∃ Y, s_trk s' !! M = Some (md, Y)) -> same_wants s s'.
 Proof.
-  intros H Hd Ho [Y HM]. split; [done|]. intros n. unfold wants. rewrite Hd.
-  destruct (decide (n = M)) as [->|]; [rewrite H, HM; done|]. rewrite Ho by done. done.
+  intros H Hd Ha Hf Ho [Y HM]. split_and!; try done.
+  - intros n. unfold wants. rewrite Hd.
+    destruct (decide (n = M)) as [->|]; [rewrite H, HM; done|]. rewrite Ho by done. done.
+  - intros n _. destruct (decide (n = M)) as [->|]; [by rewrite H, HM|by rewrite Ho].
 Qed.
 
 Lemma write_updates_wants fx M lines wf s s' e :
@@ -358,11 +370,11 @@ Proof.
   destruct wf.
   - destruct lines; [done|]. simplify_eq.
     destruct nt; simpl; [destruct fx; simpl; [apply Hrq|] |rewrite andb_false_r];
-      (eapply sw_by_fields; [done|done| |]; simpl;
+      (eapply sw_by_fields; [done|done|done|done| |]; simpl;
        [intros n Hn; rewrite ?lookup_insert_ne by done; done | eexists; apply lookup_insert]).
   - destruct cpl; [|done]. simplify_eq.
     destruct nt; simpl; repeat case_match; simpl;
-      (eapply sw_by_fields; [done|done| |]; simpl;
+      (eapply sw_by_fields; [done|done|done|done| |]; simpl;
        [intros n Hn; rewrite ?lookup_insert_ne by done; done | eexists; apply lookup_insert]).
 Qed.
 
@@ -384,7 +396,7 @@ Proof.
       - destruct bs; [|done]. simplify_eq. split; [done|]. intros; simpl; done.
       - destruct (IH s1 H) as [Ha Hb']; [eapply WFd_same; [apply Hsw|done]|].
         split; [eapply same_wants_trans; done|].
-        intros k i inj. eapply events_safe_ext; [|apply Hb']. apply Hsw. }
+        intros k i inj. eapply events_safe_ext; [|apply Hb']. by apply sw_wants. }
     split; [done|]. intros k i inj. rewrite run_script_app.
     specialize (Hb k i inj). pose proof (run_script_last k ls i inj) as Hl.
     destruct (run_script k ls i inj) as [[ev1 k1] f1]. cbn [fst snd] in *.
@@ -418,10 +430,36 @@ Qed.
 (* ---------------------------------------------------------------- destroys *)
 Definition WFp (s : st) : Prop := ∀ n, is_Some (s_dp s !! n) → owned n = true.
 
-Lemma sw_del_trk n s : s_des s !! n = None -> same_wants s (set_trk (delete n) s).
+Lemma sw_del_trk n s : s_des s !! n = None -> s_all s !! n = None -> same_wants s (set_trk (delete n) s).
 Proof.
-  intros H. split; [done|]. intros m. unfold wants. simpl.
-  destruct (decide (m = n)) as [->|]; [rewrite H; done|]. rewrite lookup_delete_ne by done. done.
+  intros H Ha. split_and!; try done.
+  - intros m. unfold wants. simpl.
+    destruct (decide (m = n)) as [->|]; [rewrite H; done|]. rewrite lookup_delete_ne by done. done.
+  - intros m Hm. simpl. destruct (decide (m = n)) as [->|]; [rewrite Ha in Hm; by destruct Hm|by rewrite lookup_delete_ne].
+Qed.
+Lemma sw_forget n s : s_des s !! n = None -> same_wants s (forget_set n s).
+Proof.
+  intros H. unfold forget_set. destruct (s_all s !! n) eqn:Ea; [|by apply sw_del_trk].
+  destruct (s_trk s !! n) as [[d0 p0]|] eqn:E; [|done]. eapply sw_set_trk_keep; done.
+Qed.
+Lemma forget_fields n s :
+  s_dp (forget_set n s) = s_dp s ∧ s_des (forget_set n s) = s_des s ∧ s_must (forget_set n s) = s_must s
+  ∧ s_bg (forget_set n s) = s_bg s ∧ s_dirty (forget_set n s) = s_dirty s ∧ s_full (forget_set n s) = s_full s
+  ∧ s_all (forget_set n s) = s_all s ∧ s_filter (forget_set n s) = s_filter s
+  ∧ (∀ m, m ≠ n → s_trk (forget_set n s) !! m = s_trk s !! m)
+  ∧ (∀ d p, s_trk (forget_set n s) !! n = Some (d, p) → p = ∅)
+  ∧ (is_Some (s_all s !! n) → is_Some (s_trk s !! n) → is_Some (s_trk (forget_set n s) !! n)).
+Proof.
+  unfold forget_set. destruct (s_all s !! n) as [a|] eqn:Ea; [destruct (s_trk s !! n) as [[d0 p0]|] eqn:Et|]; simpl;
+    split_and!; try done.
+  - intros m Hm. by rewrite lookup_insert_ne.
+  - intros d p. rewrite lookup_insert. by intros [= _ <-].
+  - rewrite lookup_insert. eauto.
+  - intros d p. by rewrite Et.
+  - intros ? [? ?]. done.
+  - intros m Hm. by rewrite lookup_delete_ne.
+  - intros d p. by rewrite lookup_delete.
+  - intros [? ?]. done.
 Qed.
 
 Lemma del_pass_safe t tries : ∀ done k s s' k' ev c,
@@ -440,14 +478,15 @@ Proof.
     destruct (if inj then None else exec k (CDestroy n)) as [k1|] eqn:Ex.
     + destruct rest; [|done]. simplify_eq. destruct inj; [done|].
       split; [|split; [|split]].
-      * destruct t; [done|]. eapply same_wants_trans; [apply sw_del_trk; done|done].
+      * destruct t; [done|]. eapply same_wants_trans; [|apply (sw_forget n (rq_remove n s)); done]. done.
       * simpl. split; [|done]. eapply safe_unwanted; [done|].
         intros m Hm. apply elem_of_list_singleton in Hm as ->. done.
       * done.
       * intros m Hm. apply HW. destruct t; simpl in Hm.
         -- destruct (decide (m = n)) as [->|]; [rewrite lookup_delete in Hm; by destruct Hm|].
            rewrite lookup_delete_ne in Hm by done. done.
-        -- destruct (decide (m = n)) as [->|]; [rewrite lookup_delete in Hm; by destruct Hm|].
+        -- destruct (forget_fields n (rq_remove n s)) as (F1 & _). rewrite F1 in Hm. simpl in Hm.
+           destruct (decide (m = n)) as [->|]; [rewrite lookup_delete in Hm; by destruct Hm|].
            rewrite lookup_delete_ne in Hm by done. done.
     + set (s1 := if t then s else match s_dp s !! n with Some (m, (_, lf)) => set_dp <[n:=(m, (true, lf))]> s | None => s end) in *.
       destruct (del_pass t rest ({[n]} ∪ dn) k s1) as [[[[s2 k2] ev2] c2]|] eqn:Er; [|done]. simplify_eq.
@@ -458,15 +497,36 @@ Proof.
         rewrite lookup_insert_ne in Hm' by done. by apply HW. }
       destruct (IH _ _ _ _ _ _ _ Er HW1) as (Ha & Hb & Hc & Hd).
       split; [eapply same_wants_trans; done|]. split; [|done].
-      simpl. split; [apply step_safe_refl|]. eapply events_safe_ext; [|done]. apply Hs1.
+      simpl. split; [apply step_safe_refl|]. eapply events_safe_ext; [|done]. by apply sw_wants.
 Qed.
 
 (* ---------------------------------------------------------------- well-formed IPSets states *)
+(* the desired view is the needed part of everything that was added; every added set has a member tracker *)
+Definition wfa (s : st) : Prop :=
+  (∀ n m, s_des s !! n = Some m → s_all s !! n = Some m ∧ needed s n = true) ∧
+  (∀ n m, s_all s !! n = Some m → needed s n = true → s_des s !! n = Some m) ∧
+  (∀ n, is_Some (s_all s !! n) → n.1 = 0 ∧ is_Some (s_trk s !! n)).
+
 Record WF (s : st) : Prop := mkWF {
   wf_des : ∀ n, is_Some (s_des s !! n) → n.1 = 0 ∧ is_Some (s_trk s !! n);
   wf_dp : ∀ n, is_Some (s_dp s !! n) → owned n = true;
-  wf_q : ∀ n, n ∈ s_must s ∪ s_bg s → owned n = true
+  wf_q : ∀ n, n ∈ s_must s ∪ s_bg s → owned n = true;
+  wf_all : wfa s
 }.
+
+(* wfa only looks at the desired view, the added sets, the filter and which trackers exist *)
+Lemma wfa_keep s s' :
+  s_des s' = s_des s -> s_all s' = s_all s -> s_filter s' = s_filter s ->
+  (∀ n, is_Some (s_all s !! n) → is_Some (s_trk s !! n) → is_Some (s_trk s' !! n)) -> wfa s -> wfa s'.
+Proof.
+  intros E1 E2 E3 Ht (A & B & C). unfold wfa, needed. rewrite E1, E2, E3. split; [done|]. split; [done|].
+  intros n Hn. destruct (C n Hn) as [? ?]. split; [done|]. by apply Ht.
+Qed.
+
+Ltac wfa_ins n H4 :=
+  eapply wfa_keep; [..|exact H4]; try done; simpl;
+  let x := fresh "x" in let Hx := fresh "Hx" in
+  intros x _ Hx; destruct (decide (x = n)) as [->|]; [rewrite lookup_insert; eauto|by rewrite lookup_insert_ne].
 
 Lemma WF_WFd s : WF s -> WFd s.
 Proof. intros H n Hn. by apply H. Qed.
@@ -480,22 +540,22 @@ Lemma good_refl s : WF s -> good s s.
 Proof. done. Qed.
 
 Lemma good_upd_dirty n s : WF s -> good s (upd_dirty n s).
-Proof. intros [H1 H2 H3]. split; [|apply sw_upd_dirty]. unfold upd_dirty. repeat case_match; done. Qed.
+Proof. intros [H1 H2 H3 H4]. split; [|apply sw_upd_dirty]. unfold upd_dirty. repeat case_match; split; done. Qed.
 
 Lemma good_rq_remove n s : WF s -> good s (rq_remove n s).
-Proof. intros [H1 H2 H3]. split; [|done]. split; [done|done|]. simpl. intros m Hm. apply H3. set_solver. Qed.
+Proof. intros [H1 H2 H3 H4]. split; [|done]. split; [done|done| |done]. simpl. intros m Hm. apply H3. set_solver. Qed.
 
 Lemma good_rq_add_must n s : owned n = true -> WF s -> good s (rq_add_must n s).
 Proof.
-  intros Ho [H1 H2 H3]. split; [|apply sw_rq_add_must]. unfold rq_add_must. case_bool_decide; [done|].
-  split; [done|done|]. simpl. intros m Hm.
+  intros Ho [H1 H2 H3 H4]. split; [|apply sw_rq_add_must]. unfold rq_add_must. case_bool_decide; [done|].
+  split; [done|done| |done]. simpl. intros m Hm.
   destruct (decide (m = n)) as [->|]; [done|]. apply H3. set_solver.
 Qed.
 
 Lemma good_rq_add_bg n s : owned n = true -> WF s -> good s (rq_add_bg n s).
 Proof.
-  intros Ho [H1 H2 H3]. split; [|apply sw_rq_add_bg]. unfold rq_add_bg. destruct (_ || _); [done|].
-  split; [done|done|]. simpl. intros m Hm.
+  intros Ho [H1 H2 H3 H4]. split; [|apply sw_rq_add_bg]. unfold rq_add_bg. destruct (_ || _); [done|].
+  split; [done|done| |done]. simpl. intros m Hm.
   destruct (decide (m = n)) as [->|]; [done|]. apply H3. set_solver.
 Qed.
 
@@ -511,20 +571,26 @@ Proof.
   intros Hs. unfold on_missing.
   set (s1 := set_dp (delete n) s).
   assert (good s s1) as G1.
-  { split; [|done]. destruct Hs as [H1 H2 H3]. split; [done| |done]. simpl. intros m Hm.
+  { split; [|done]. destruct Hs as [H1 H2 H3 H4]. split; [done| |done|done]. simpl. intros m Hm.
     apply H2. destruct (decide (m = n)) as [->|]; [rewrite lookup_delete in Hm; by destruct Hm|].
     by rewrite lookup_delete_ne in Hm. }
-  set (s2 := match s_trk s1 !! n with Some (d, _) => if bool_decide (is_Some (s_des s1 !! n)) then set_trk <[n:=(d, ∅)]> s1 else set_trk (delete n) s1 | None => s1 end).
+  set (s2 := match s_trk s1 !! n with Some (d, _) => if bool_decide (is_Some (s_all s1 !! n)) then set_trk <[n:=(d, ∅)]> s1 else set_trk (delete n) s1 | None => s1 end).
   assert (good s1 s2) as G2.
-  { subst s2. destruct G1 as [[H1 H2 H3] _]. destruct (s_trk s1 !! n) as [[d p]|] eqn:E; [|done].
+  { subst s2. destruct G1 as [[H1 H2 H3 H4] _]. destruct (s_trk s1 !! n) as [[d p0]|] eqn:E; [|done].
     case_bool_decide as Hd.
-    - split; [|eapply sw_set_trk_keep; done]. split; [|done|done]. simpl. intros m Hm.
-      destruct (H1 m Hm) as [? ?]. split; [done|].
-      destruct (decide (m = n)) as [->|]; [rewrite lookup_insert; eauto|]. by rewrite lookup_insert_ne.
-    - assert (s_des s1 !! n = None) as Hn by (by apply eq_None_not_Some).
-      split; [|by apply sw_del_trk]. split; [|done|done]. simpl. intros m Hm.
-      destruct (H1 m Hm) as [? ?]. split; [done|].
-      destruct (decide (m = n)) as [->|]; [by destruct (Hd Hm)|]. by rewrite lookup_delete_ne. }
+    - split; [|eapply sw_set_trk_keep; done]. split; [|done|done|].
+      + simpl. intros m Hm. destruct (H1 m Hm) as [? ?]. split; [done|].
+        destruct (decide (m = n)) as [->|]; [rewrite lookup_insert; eauto|]. by rewrite lookup_insert_ne.
+      + eapply wfa_keep; [..|exact H4]; try done. simpl. intros m _ Hm.
+        destruct (decide (m = n)) as [->|]; [rewrite lookup_insert; eauto|]. by rewrite lookup_insert_ne.
+    - assert (s_all s1 !! n = None) as Ha by (by apply eq_None_not_Some).
+      assert (s_des s1 !! n = None) as Hn.
+      { destruct (s_des s1 !! n) eqn:Ed; [|done]. destruct H4 as (Q & _). destruct (Q n _ Ed). congruence. }
+      split; [|by apply sw_del_trk]. split; [|done|done|].
+      + simpl. intros m Hm. destruct (H1 m Hm) as [? ?]. split; [done|].
+        destruct (decide (m = n)) as [->|]; [simpl in Hm, Hn; rewrite Hn in Hm; by destruct Hm|]. by rewrite lookup_delete_ne.
+      + eapply wfa_keep; [..|exact H4]; try done. simpl. intros m Hm Ht.
+        destruct (decide (m = n)) as [->|]; [simpl in Ha; rewrite Ha in Hm; by destruct Hm|]. by rewrite lookup_delete_ne. }
   eapply good_trans; [exact G1|]. eapply good_trans; [exact G2|].
   eapply good_trans; [apply good_upd_dirty; apply G2|]. apply good_rq_remove. apply good_upd_dirty. apply G2.
 Qed.
@@ -534,20 +600,23 @@ Proof.
   intros Ho Hs. unfold resync_one. destruct (k !! n) as [[m ms]|]; [|by apply good_on_missing].
   set (s1 := set_dp <[n:=clean m]> s).
   assert (good s s1) as G1.
-  { split; [|done]. destruct Hs as [H1 H2 H3]. split; [done| |done]. simpl. intros x Hx.
+  { split; [|done]. destruct Hs as [H1 H2 H3 H4]. split; [done| |done|done]. simpl. intros x Hx.
     destruct (decide (x = n)) as [->|]; [done|]. rewrite lookup_insert_ne in Hx by done. by apply H2. }
   destruct (is_temp n); [done|].
   eapply good_trans; [exact G1|].
   set (d := match s_trk s1 !! n with Some (d, _) => d | None => ∅ end).
   assert (good s1 (set_trk <[n:=(d, ms)]> s1)) as G2.
-  { destruct G1 as [[H1 H2 H3] _]. split.
-    - split; [|done|done]. simpl. intros x Hx. destruct (H1 x Hx) as [? ?]. split; [done|].
+  { destruct G1 as [[H1 H2 H3 H4] _]. split.
+    - split; [|done|done|wfa_ins n H4]. simpl. intros x Hx. destruct (H1 x Hx) as [? ?]. split; [done|].
       destruct (decide (x = n)) as [->|]; [rewrite lookup_insert; eauto|]. by rewrite lookup_insert_ne.
     - subst d. destruct (s_trk s1 !! n) as [[d p]|] eqn:E; [eapply sw_set_trk_keep; done|].
-      split; [done|]. intros x. unfold wants. simpl. simpl in E.
-      destruct (decide (x = n)) as [->|]; [|by rewrite lookup_insert_ne].
-      rewrite E. destruct (s_des s !! n) eqn:Ed; [|done].
-      destruct (H1 n) as [_ [? Hq]]; [simpl; eauto|]. simpl in Hq. congruence. }
+      split_and!; try done.
+      + intros x. unfold wants. simpl. simpl in E.
+        destruct (decide (x = n)) as [->|]; [|by rewrite lookup_insert_ne].
+        rewrite E. destruct (s_des s !! n) eqn:Ed; [|done].
+        destruct (H1 n) as [_ [? Hq]]; [simpl; eauto|]. simpl in Hq. congruence.
+      + intros x Hx. simpl. destruct (decide (x = n)) as [->|]; [|by rewrite lookup_insert_ne].
+        destruct H4 as (_ & _ & W3). destruct (W3 n Hx) as [_ [? Hq]]. simpl in E, Hq. congruence. }
   eapply good_trans; [exact G2|]. apply good_upd_dirty. apply G2.
 Qed.
 
@@ -565,10 +634,10 @@ Proof.
   intros Hs. unfold begin_full.
   set (s1 := set_must _ _).
   assert (good s s1) as G1.
-  { split; [|done]. destruct Hs as [H1 H2 H3]. split; [done| |]; simpl.
+  { split; [|done]. destruct Hs as [H1 H2 H3 H4]. split; [done| | |done]; simpl.
     - intros n Hn. rewrite lookup_empty in Hn. by destruct Hn.
     - intros n Hn. apply (owned_names_owned k). set_solver. }
-  eapply good_trans; [exact G1|]. destruct (good_sweep (owned_names k) s1) as [[H1 H2 H3] H4]; [apply G1|].
+  eapply good_trans; [exact G1|]. destruct (good_sweep (owned_names k) s1) as [[H1 H2 H3 H5] H4]; [apply G1|].
   split; [|done]. split; done.
 Qed.
 
@@ -592,7 +661,7 @@ Proof.
     assert (owned n = true) as Ho by (apply (wf_q _ Hs); set_solver).
     set (s1 := set_bg (.∖ {[n]}) s) in *.
     assert (good s s1) as G1.
-    { split; [|done]. destruct Hs as [H1 H2 H3]. split; [done|done|]. simpl. intros m Hm. apply H3. set_solver. }
+    { split; [|done]. destruct Hs as [H1 H2 H3 H4]. split; [done|done| |done]. simpl. intros m Hm. apply H3. set_solver. }
     eapply good_trans; [exact G1|].
     eapply good_trans; [apply good_resync_one; [done|apply G1]|].
     eapply IH; [done|]. apply good_resync_one; [done|apply G1].
@@ -614,7 +683,7 @@ Proof.
   set (mustn := take (size (s_must s)) names) in *.
   set (s0 := set_must (λ _, ∅) s) in *.
   assert (good s s0) as G0.
-  { split; [|done]. destruct Hs as [H1 H2 H3]. split; [done|done|]. simpl. intros m Hm. apply H3. set_solver. }
+  { split; [|done]. destruct Hs as [H1 H2 H3 H4]. split; [done|done| |done]. simpl. intros m Hm. apply H3. set_solver. }
   assert (Forall (λ n, owned n = true) mustn) as Hown.
   { apply Forall_forall. intros n Hn. apply (wf_q _ Hs). rewrite <- Hc. set_solver. }
   pose proof (good_foldl_resync k mustn s0 Hown (proj1 G0)) as G1.
@@ -636,19 +705,20 @@ Proof.
 Qed.
 
 Lemma WF_intro s s' :
-  WF s -> s_des s' = s_des s ->
-  (∀ n, is_Some (s_trk s !! n) → is_Some (s_des s !! n) → is_Some (s_trk s' !! n)) ->
+  WF s -> s_des s' = s_des s -> s_all s' = s_all s -> s_filter s' = s_filter s ->
+  (∀ n, is_Some (s_trk s !! n) → is_Some (s_des s !! n) ∨ is_Some (s_all s !! n) → is_Some (s_trk s' !! n)) ->
   (∀ n, is_Some (s_dp s' !! n) → owned n = true) ->
   (∀ n, n ∈ s_must s' ∪ s_bg s' → owned n = true) -> WF s'.
 Proof.
-  intros [H1 H2 H3] Hd Ht Hp Hq. split; [|done|done]. intros n Hn. rewrite Hd in Hn.
-  destruct (H1 n Hn). split; [done|]. by apply Ht.
+  intros [H1 H2 H3 H4] Hd Ha Hf Ht Hp Hq. split; [|done|done|].
+  - intros n Hn. rewrite Hd in Hn. destruct (H1 n Hn). split; [done|]. apply Ht; auto.
+  - eapply wfa_keep; [done|done|done| |exact H4]. intros n Hn Hn'. apply Ht; auto.
 Qed.
 
 Lemma del_pass_aux t tries : ∀ done k s s' k' ev c,
   del_pass t tries done k s = Some (s', k', ev, c) ->
-  (∀ n, is_Some (s_trk s !! n) → is_Some (s_des s !! n) → is_Some (s_trk s' !! n))
-  ∧ s_must s' ∪ s_bg s' ⊆ s_must s ∪ s_bg s.
+  (∀ n, is_Some (s_trk s !! n) → is_Some (s_des s !! n) ∨ is_Some (s_all s !! n) → is_Some (s_trk s' !! n))
+  ∧ s_must s' ∪ s_bg s' ⊆ s_must s ∪ s_bg s ∧ s_all s' = s_all s ∧ s_filter s' = s_filter s.
 Proof.
   induction tries as [|[n inj] rest IH]; intros dn k s s' k' ev c H; simpl in H.
   - case_bool_decide; [|done]. simplify_eq. done.
@@ -657,16 +727,18 @@ Proof.
     apply elem_of_filter in Hel as [_ Hpd]. unfold pending_del in Hpd.
     apply elem_of_difference in Hpd as [_ Hdes]. apply not_elem_of_dom in Hdes.
     destruct (if inj then None else exec k (CDestroy n)) as [k1|] eqn:Ex.
-    + destruct rest; [|done]. simplify_eq. split.
-      * intros m Hm Hd. destruct t; simpl; [done|].
-        destruct (decide (m = n)) as [->|]; [rewrite Hdes in Hd; by destruct Hd|]. by rewrite lookup_delete_ne.
-      * destruct t; simpl; set_solver.
+    + destruct rest; [|done]. simplify_eq. destruct t; simpl; [split_and!; try done; set_solver|].
+      destruct (forget_fields n (rq_remove n s)) as (F1 & F2 & F3 & F4 & F5 & F6 & F7 & F8 & F9 & F10 & F11).
+      rewrite F3, F4, F7, F8. simpl. split_and!; try done; [|set_solver].
+      intros m Hm Hd. destruct (decide (m = n)) as [->|]; [|by rewrite F9].
+      destruct Hd as [Hd|Hd]; [rewrite Hdes in Hd; by destruct Hd|]. by apply F11.
     + set (s1 := if t then s else match s_dp s !! n with Some (m, (_, lf)) => set_dp <[n:=(m, (true, lf))]> s | None => s end) in *.
       destruct (del_pass t rest ({[n]} ∪ dn) k s1) as [[[[s2 k2] ev2] c2]|] eqn:Er; [|done]. simplify_eq.
-      destruct (IH _ _ _ _ _ _ _ Er) as [Ha Hb].
-      assert (s_trk s1 = s_trk s ∧ s_des s1 = s_des s ∧ s_must s1 = s_must s ∧ s_bg s1 = s_bg s) as (E1 & E2 & E3 & E4)
+      destruct (IH _ _ _ _ _ _ _ Er) as (Ha & Hb & Hc & Hd).
+      assert (s_trk s1 = s_trk s ∧ s_des s1 = s_des s ∧ s_must s1 = s_must s ∧ s_bg s1 = s_bg s
+              ∧ s_all s1 = s_all s ∧ s_filter s1 = s_filter s) as (E1 & E2 & E3 & E4 & E5 & E6)
         by (subst s1; repeat case_match; done).
-      rewrite E1, E2, E3, E4 in *. done.
+      rewrite E1, E2, E3, E4, E5, E6 in *. done.
 Qed.
 
 Lemma del_pass_good t tries dn k s s' k' ev c :
@@ -674,8 +746,8 @@ Lemma del_pass_good t tries dn k s s' k' ev c :
   good s s' ∧ events_safe (wants s) k ev ∧ k' = last_kernel k ev.
 Proof.
   intros H Hs. destruct (del_pass_safe _ _ _ _ _ _ _ _ _ H (WF_WFp _ Hs)) as (Ha & Hb & Hc & Hd).
-  destruct (del_pass_aux _ _ _ _ _ _ _ _ _ H) as [He Hf].
-  split; [|done]. split; [|done]. eapply WF_intro; [done|apply Ha|done|done|].
+  destruct (del_pass_aux _ _ _ _ _ _ _ _ _ H) as (He & Hf & Hg & Hh).
+  split; [|done]. split; [|done]. eapply WF_intro; [done|apply Ha|done|done|done|done|].
   intros n Hn. apply (wf_q _ Hs). set_solver.
 Qed.
 
@@ -696,18 +768,18 @@ Proof.
   { intros T X HT HX. by apply good_rq_add_must. }
   assert (∀ X, s_des X = s_des s → (∀ n, n ≠ M → s_trk X !! n = s_trk s !! n) → is_Some (s_trk X !! M) →
           (∀ n, is_Some (s_dp X !! n) → n = M ∨ n = temp_name (next_free s) ∨ is_Some (s_dp s !! n)) →
-          s_must X = s_must s → s_bg X = s_bg s → WF X) as Hmk.
-  { intros X E1 E2 E3 E4 E5 E6. eapply WF_intro; [done|done| | |].
+          s_must X = s_must s → s_bg X = s_bg s → s_all X = s_all s → s_filter X = s_filter s → WF X) as Hmk.
+  { intros X E1 E2 E3 E4 E5 E6 E7 E8. eapply WF_intro; [done|done|done|done| | |].
     - intros n Hn _. destruct (decide (n = M)) as [->|]; [done|]. by rewrite E2.
     - intros n Hn. destruct (E4 n Hn) as [->|[->|?]]; [done|done|]. by apply (wf_dp _ Hs).
     - rewrite E5, E6. apply (wf_q _ Hs). }
   destruct wf.
   - destruct lines; [done|]. simplify_eq.
     destruct nt; simpl; [destruct fx; simpl; [apply Hrq; [done|]|] | rewrite andb_false_r];
-      (apply Hmk; simpl; [done| intros n Hn; rewrite ?lookup_insert_ne by done; done | rewrite lookup_insert; eauto | eauto | done | done]).
+      (apply Hmk; simpl; [done| intros n Hn; rewrite ?lookup_insert_ne by done; done | rewrite lookup_insert; eauto | eauto | done | done | done | done]).
   - destruct cpl; [|done]. simplify_eq.
     destruct nt; simpl; repeat case_match; simpl;
-      (apply Hmk; simpl; [done| intros n Hn; rewrite ?lookup_insert_ne by done; done | rewrite lookup_insert; eauto | | done | done]);
+      (apply Hmk; simpl; [done| intros n Hn; rewrite ?lookup_insert_ne by done; done | rewrite lookup_insert; eauto | | done | done | done | done]);
       intros n Hn; 
       repeat (match type of Hn with is_Some (<[?a:=_]> _ !! n) => destruct (decide (n = a)) as [->|]; [eauto|rewrite lookup_insert_ne in Hn by done] end); eauto.
 Qed.
@@ -746,17 +818,17 @@ Proof.
       * intros; by apply good_rq_add_must.
       * eapply Forall_impl; [exact Hw2|]. intros M HM. simpl in HM.
         destruct (wf_des _ Hs M HM) as [E _]. unfold owned. by rewrite E.
-    + destruct Hw1 as [X1 X2 X3]. split; done.
+    + destruct Hw1 as [X1 X2 X3 X4]. split; done.
 Qed.
 
 (* ---------------------------------------------------------------- the whole ApplyUpdates / ApplyDeletions *)
 Lemma good_set_full b s : WF s -> good s (set_full b s).
-Proof. intros [H1 H2 H3]. split; [|done]. split; done. Qed.
+Proof. intros [H1 H2 H3 H4]. split; [|done]. split; done. Qed.
 Lemma good_set_panic b s : WF s -> good s (set_panic b s).
-Proof. intros [H1 H2 H3]. split; [|done]. split; done. Qed.
+Proof. intros [H1 H2 H3 H4]. split; [|done]. split; done. Qed.
 
 Lemma events_safe_good s s' k e : good s s' -> events_safe (wants s') k e -> events_safe (wants s) k e.
-Proof. intros [_ [_ H]]. apply events_safe_ext. done. Qed.
+Proof. intros [_ H]. apply events_safe_ext. by apply sw_wants. Qed.
 
 Lemma apply_updates_loop_safe fx obs : ∀ att budget k s s' k' ev,
   apply_updates_loop fx obs att budget k s = Some (s', k', ev) -> WF s ->
@@ -841,7 +913,10 @@ Proof.
 Qed.
 
 (* ---------------------------------------------------------------- API calls *)
-Definition rel (D : gmap N (meta * gset member)) (s : st) : Prop := ∀ n, wants s n = want_of D n.
+(* A = every set asked for (id -> metadata, members), F = the filter *)
+Definition relA (A : gmap N (meta * gset member)) (F : option (gset name)) (s : st) : Prop :=
+  s_filter s = F ∧ (∀ id, s_all s !! main_name id = fst <$> A !! id)
+  ∧ (∀ id v, A !! id = Some v → ∃ p, s_trk s !! main_name id = Some (v.2, p)).
 
 Lemma wants_non_main s n : WF s -> n.1 ≠ 0 -> wants s n = None.
 Proof.
@@ -861,91 +936,221 @@ Lemma WF_upd_dirty n s : WF s -> WF (upd_dirty n s).
 Proof. intros H. apply good_upd_dirty, H. Qed.
 Lemma wants_upd_dirty n s m : wants (upd_dirty n s) m = wants s m.
 Proof. apply sw_upd_dirty. Qed.
-
-Lemma api_add_or_replace D s id m ms :
-  WF s -> rel D s -> WF (add_or_replace id m ms s) ∧ rel (<[id := (m, ms)]> D) (add_or_replace id m ms s).
+Lemma fields_upd_dirty n s :
+  s_des (upd_dirty n s) = s_des s ∧ s_dp (upd_dirty n s) = s_dp s ∧ s_trk (upd_dirty n s) = s_trk s
+  ∧ s_must (upd_dirty n s) = s_must s ∧ s_bg (upd_dirty n s) = s_bg s ∧ s_all (upd_dirty n s) = s_all s
+  ∧ s_filter (upd_dirty n s) = s_filter s ∧ s_full (upd_dirty n s) = s_full s.
+Proof. unfold upd_dirty. destruct (s_trk s !! n) as [[d p0]|]; [destruct (_ && _)|]; done. Qed.
+Lemma relA_upd_dirty A F n s : relA A F s -> relA A F (upd_dirty n s).
 Proof.
-  intros Hs Hr. unfold add_or_replace.
-  set (p := match s_trk s !! main_name id with Some (_, p) => p | None => ∅ end).
-  set (s1 := set_trk _ (set_des _ s)).
-  assert (WF s1) as H1.
-  { destruct Hs as [A B C]. split; [|done|done]. simpl. intros n Hn.
-    destruct (decide (n = main_name id)) as [->|]; [rewrite lookup_insert; split; [done|eauto]|].
-    rewrite lookup_insert_ne in Hn by done. rewrite lookup_insert_ne by done. by apply A. }
-  split; [by apply WF_upd_dirty|]. intros n. rewrite wants_upd_dirty.
-  destruct (name_cases n) as [[i ->]|Hn].
-  - rewrite want_of_main. unfold wants. simpl. destruct (decide (i = id)) as [->|Hne].
-    + rewrite !lookup_insert. done.
-    + assert (main_name i ≠ main_name id) by (unfold main_name; congruence).
-      rewrite !lookup_insert_ne by done. specialize (Hr (main_name i)). by rewrite want_of_main in Hr.
-  - rewrite want_of_non_main by done. by apply wants_non_main.
+  destruct (fields_upd_dirty n s) as (_ & _ & E3 & _ & _ & E6 & E7 & _). unfold relA. by rewrite E3, E6, E7.
 Qed.
 
-Lemma api_remove D s id : WF s -> rel D s -> WF (remove_ipset id s) ∧ rel (delete id D) (remove_ipset id s).
+(* what IPSets wants = the needed part of what was asked for *)
+Lemma relA_wants A F s : WF s -> relA A F s -> ∀ n, wants s n = want_of (eff A F) n.
 Proof.
-  intros Hs Hr. unfold remove_ipset.
-  set (s1 := set_des (delete (main_name id)) s).
-  assert (∀ X, s_des X = s_des s1 → (∀ n, n ≠ main_name id → s_trk X !! n = s_trk s !! n) →
-          s_dp X = s_dp s → s_must X = s_must s → s_bg X = s_bg s → WF X ∧ rel (delete id D) X) as Hmk.
-  { intros X E1 E2 E3 E4 E5. split.
-    - destruct Hs as [A B C]. split; [|by rewrite E3|by rewrite E4, E5]. intros n Hn. rewrite E1 in Hn. simpl in Hn.
-      destruct (decide (n = main_name id)) as [->|]; [rewrite lookup_delete in Hn; by destruct Hn|].
-      rewrite lookup_delete_ne in Hn by done. rewrite E2 by done. by apply A.
-    - intros n. destruct (name_cases n) as [[i ->]|Hn].
-      + rewrite want_of_main. unfold wants. rewrite E1. simpl. destruct (decide (i = id)) as [->|Hne].
-        * rewrite !lookup_delete. done.
-        * assert (main_name i ≠ main_name id) by (unfold main_name; congruence).
-          rewrite !lookup_delete_ne by done. rewrite E2 by done.
-          specialize (Hr (main_name i)). by rewrite want_of_main in Hr.
-      + rewrite want_of_non_main by done. unfold wants. rewrite E1. simpl.
-        destruct (decide (n = main_name id)) as [->|]; [done|]. rewrite lookup_delete_ne by done.
-        destruct (s_des s !! n) eqn:E; [|done]. destruct (wf_des _ Hs n); [eauto|]. done. }
-  destruct (s_dp s !! main_name id).
-  - destruct (s_trk s !! main_name id) as [[d p0]|] eqn:Et.
-    + assert (WF (set_trk <[main_name id:=(∅, p0)]> s1) ∧ rel (delete id D) (set_trk <[main_name id:=(∅, p0)]> s1)) as [A B].
-      { apply Hmk; simpl; try done. intros n Hn. by rewrite lookup_insert_ne. }
-      split; [by apply WF_upd_dirty|]. intros n. rewrite wants_upd_dirty. apply B.
+  intros Hs (Hf & Ha & Ht) n. destruct (wf_all _ Hs) as (W1 & W2 & W3).
+  destruct (name_cases n) as [[i ->]|Hn]; [|rewrite want_of_non_main by done; by apply wants_non_main].
+  rewrite want_of_main. unfold wants, eff.
+  destruct (A !! i) as [v|] eqn:EA.
+  - specialize (Ha i). rewrite EA in Ha. simpl in Ha. destruct (Ht i v EA) as [p0 Hp].
+    destruct (needed s (main_name i)) eqn:En.
+    + rewrite (W2 _ _ Ha En), Hp.
+      rewrite (map_filter_lookup_Some_2 _ A i v); [done|done|]. simpl. unfold needed in En. by rewrite <- Hf.
+    + destruct (s_des s !! main_name i) eqn:Ed; [destruct (W1 _ _ Ed); congruence|].
+      assert (filter (λ kv, needed_f F (main_name kv.1) = true) A !! i = None) as ->; [|done].
+      apply map_filter_lookup_None. right. intros x Hx. simpl. rewrite EA in Hx. injection Hx as <-.
+      unfold needed in En. rewrite Hf in En. by rewrite En.
+  - specialize (Ha i). rewrite EA in Ha. simpl in Ha.
+    destruct (s_des s !! main_name i) eqn:Ed; [destruct (W1 _ _ Ed); congruence|].
+    assert (filter (λ kv, needed_f F (main_name kv.1) = true) A !! i = None) as ->; [|done].
+    apply map_filter_lookup_None. by left.
+Qed.
+
+Lemma main_name_inj i j : main_name i = main_name j -> i = j.
+Proof. unfold main_name. congruence. Qed.
+
+Lemma api_add_or_replace A F s id m ms :
+  WF s -> relA A F s -> WF (add_or_replace id m ms s) ∧ relA (<[id := (m, ms)]> A) F (add_or_replace id m ms s).
+Proof.
+  intros Hs (Hf & Ha & Ht). unfold add_or_replace. set (n := main_name id).
+  set (p := match s_trk s !! n with Some (_, p) => p | None => ∅ end).
+  set (s2 := if needed s n then set_des <[n:=m]> (set_all <[n:=m]> s) else set_all <[n:=m]> s).
+  assert (s_all s2 = <[n:=m]> (s_all s) ∧ s_filter s2 = s_filter s ∧ s_trk s2 = s_trk s ∧ s_dp s2 = s_dp s
+          ∧ s_must s2 = s_must s ∧ s_bg s2 = s_bg s
+          ∧ s_des s2 = if needed s n then <[n:=m]> (s_des s) else s_des s) as (E1 & E2 & E3 & E4 & E5 & E6 & E7)
+    by (subst s2; destruct (needed s n); done).
+  set (s3 := set_trk <[n:=(ms, p)]> s2).
+  destruct Hs as [H1 H2 H3 (W1 & W2 & W3)].
+  assert (WF s3) as W.
+  { split.
+    - simpl. rewrite E7, E3. intros x Hx.
+      destruct (decide (x = n)) as [->|]; [rewrite lookup_insert; split; [done|eauto]|].
+      rewrite lookup_insert_ne by done. apply H1. destruct (needed s n); [by rewrite lookup_insert_ne in Hx|done].
+    - simpl. by rewrite E4.
+    - simpl. by rewrite E5, E6.
+    - unfold wfa, needed in *. simpl. rewrite E1, E2, E3, E7. split_and!.
+      + intros x mx Hx. destruct (decide (x = n)) as [->|].
+        * rewrite lookup_insert. destruct (needed_f (s_filter s) n) eqn:En; [rewrite lookup_insert in Hx; by simplify_eq|].
+          destruct (W1 _ _ Hx). congruence.
+        * rewrite lookup_insert_ne by done. apply W1. destruct (needed_f (s_filter s) n); [by rewrite lookup_insert_ne in Hx|done].
+      + intros x mx Hx Hn. destruct (decide (x = n)) as [->|].
+        * rewrite lookup_insert in Hx. simplify_eq. rewrite Hn. by rewrite lookup_insert.
+        * rewrite lookup_insert_ne in Hx by done. specialize (W2 _ _ Hx Hn).
+          destruct (needed_f (s_filter s) n); [by rewrite lookup_insert_ne|done].
+      + intros x Hx. destruct (decide (x = n)) as [->|]; [rewrite lookup_insert; split; [done|eauto]|].
+        rewrite lookup_insert_ne in Hx by done. rewrite lookup_insert_ne by done. by apply W3. }
+  split; [by apply WF_upd_dirty|]. apply relA_upd_dirty. split_and!.
+  - simpl. by rewrite E2.
+  - intros i. simpl. rewrite E1. destruct (decide (i = id)) as [->|Hne].
+    + by rewrite !lookup_insert.
+    + assert (main_name i ≠ n) by (intros E; by apply main_name_inj in E). by rewrite !lookup_insert_ne.
+  - intros i v Hv. simpl. rewrite E3. destruct (decide (i = id)) as [->|Hne].
+    + rewrite lookup_insert in Hv. simplify_eq. rewrite lookup_insert. eauto.
+    + assert (main_name i ≠ n) by (intros E; by apply main_name_inj in E).
+      rewrite lookup_insert_ne in Hv by done. rewrite lookup_insert_ne by done. by apply Ht.
+Qed.
+
+Lemma api_remove A F s id :
+  WF s -> relA A F s -> WF (remove_ipset id s) ∧ relA (delete id A) F (remove_ipset id s).
+Proof.
+  intros Hs (Hf & Ha & Ht). unfold remove_ipset. set (n := main_name id).
+  set (s1 := set_all (delete n) (set_des (delete n) s)).
+  destruct Hs as [H1 H2 H3 (W1 & W2 & W3)].
+  assert (∀ X, s_des X = delete n (s_des s) → s_all X = delete n (s_all s) → s_filter X = s_filter s →
+          (∀ x, x ≠ n → s_trk X !! x = s_trk s !! x) →
+          s_dp X = s_dp s → s_must X = s_must s → s_bg X = s_bg s → WF X ∧ relA (delete id A) F X) as Hmk.
+  { intros X E1 E2 E3 E4 E5 E6 E7. split; [split|].
+    - rewrite E1. intros x Hx. destruct (decide (x = n)) as [->|]; [rewrite lookup_delete in Hx; by destruct Hx|].
+      rewrite lookup_delete_ne in Hx by done. rewrite E4 by done. by apply H1.
+    - by rewrite E5.
+    - by rewrite E6, E7.
+    - unfold wfa, needed in *. rewrite E1, E2, E3. split_and!.
+      + intros x mx Hx. destruct (decide (x = n)) as [->|]; [by rewrite lookup_delete in Hx|].
+        rewrite lookup_delete_ne in Hx by done. rewrite lookup_delete_ne by done. by apply W1.
+      + intros x mx Hx Hn. destruct (decide (x = n)) as [->|]; [by rewrite lookup_delete in Hx|].
+        rewrite lookup_delete_ne in Hx by done. rewrite lookup_delete_ne by done. by apply W2.
+      + intros x Hx. destruct (decide (x = n)) as [->|]; [rewrite lookup_delete in Hx; by destruct Hx|].
+        rewrite lookup_delete_ne in Hx by done. rewrite E4 by done. by apply W3.
+    - split_and!.
+      + by rewrite E3.
+      + intros i. rewrite E2. destruct (decide (i = id)) as [->|Hne]; [by rewrite !lookup_delete|].
+        assert (main_name i ≠ n) by (intros E; by apply main_name_inj in E). by rewrite !lookup_delete_ne.
+      + intros i v Hv. destruct (decide (i = id)) as [->|Hne]; [by rewrite lookup_delete in Hv|].
+        assert (main_name i ≠ n) by (intros E; by apply main_name_inj in E).
+        rewrite lookup_delete_ne in Hv by done. rewrite E4 by done. by apply Ht. }
+  destruct (s_dp s !! n).
+  - destruct (s_trk s !! n) as [[d p0]|] eqn:Et.
+    + destruct (Hmk (set_trk <[n:=(∅, p0)]> s1)) as [A1 A2]; simpl; try done.
+      { intros x Hx. by rewrite lookup_insert_ne. }
+      split; [by apply WF_upd_dirty|by apply relA_upd_dirty].
     + apply Hmk; simpl; done.
-  - assert (WF (set_trk (delete (main_name id)) s1) ∧ rel (delete id D) (set_trk (delete (main_name id)) s1)) as [A B].
-    { apply Hmk; simpl; try done. intros n Hn. by rewrite lookup_delete_ne. }
-    split; [by apply WF_upd_dirty|]. intros n. rewrite wants_upd_dirty. apply B.
+  - destruct (Hmk (set_trk (delete n) s1)) as [A1 A2]; simpl; try done.
+    { intros x Hx. by rewrite lookup_delete_ne. }
+    split; [by apply WF_upd_dirty|by apply relA_upd_dirty].
 Qed.
 
-Lemma api_change D s add id ms :
-  WF s -> rel D s ->
+Lemma api_change A F s add id ms :
+  WF s -> relA A F s ->
   WF (change_members add id ms s) ∧
-  rel (alter (λ v, (v.1, if add then v.2 ∪ ms else v.2 ∖ ms)) id D) (change_members add id ms s).
+  relA (alter (λ v, (v.1, if add then v.2 ∪ ms else v.2 ∖ ms)) id A) F (change_members add id ms s).
 Proof.
-  intros Hs Hr. unfold change_members.
-  assert (∀ X, s_des X = s_des s → s_trk X = s_trk s → rel D X) as Hsame.
-  { intros X E1 E2 n. unfold wants. rewrite E1, E2. apply Hr. }
-  assert (D !! id = None → alter (λ v, (v.1, if add then v.2 ∪ ms else v.2 ∖ ms)) id D = D) as Hnone.
+  intros Hs (Hf & Ha & Ht). unfold change_members. set (n := main_name id).
+  assert (A !! id = None → alter (λ v, (v.1, if add then v.2 ∪ ms else v.2 ∖ ms)) id A = A) as Hnone.
   { intros E. apply map_eq. intros i. destruct (decide (i = id)) as [->|]; [by rewrite lookup_alter, E|by rewrite lookup_alter_ne]. }
-  pose proof (Hr (main_name id)) as Hid. rewrite want_of_main in Hid. unfold wants in Hid.
-  destruct (s_des s !! main_name id) as [dm|] eqn:Ed.
-  - case_bool_decide as Hms.
+  assert (∀ X, WF X → s_filter X = s_filter s → s_all X = s_all s → s_trk X = s_trk s → A !! id = None →
+          WF X ∧ relA (alter (λ v, (v.1, if add then v.2 ∪ ms else v.2 ∖ ms)) id A) F X) as Hsame.
+  { intros X WX E1 E2 E3 EA. split; [done|]. rewrite Hnone by done. unfold relA. by rewrite E1, E2, E3. }
+  pose proof (Ha id) as Hid. change (main_name id) with n in Hid.
+  destruct (s_all s !! n) as [am|] eqn:Eall.
+  - destruct (A !! id) as [v|] eqn:EA; [|simpl in Hid; done]. simpl in Hid.
+    case_bool_decide as Hms.
     + split; [done|]. subst ms.
-      replace (alter _ id D) with D; [done|]. apply map_eq. intros i.
+      replace (alter _ id A) with A; [done|]. apply map_eq. intros i.
       destruct (decide (i = id)) as [->|]; [|by rewrite lookup_alter_ne].
-      rewrite lookup_alter. destruct (D !! id) as [[a b]|]; [|done]. simpl. f_equal. f_equal.
-      destruct add; set_solver.
-    + destruct (s_trk s !! main_name id) as [[d p0]|] eqn:Et.
-      * set (d' := if add then d ∪ ms else d ∖ ms).
-        set (s1 := set_trk <[main_name id:=(d', p0)]> s).
-        assert (WF s1) as W1.
-        { destruct Hs as [A B C]. split; [|done|done]. simpl. intros n Hn. destruct (A n Hn). split; [done|].
-          destruct (decide (n = main_name id)) as [->|]; [rewrite lookup_insert; eauto|by rewrite lookup_insert_ne]. }
-        split; [by apply WF_upd_dirty|]. intros n. rewrite wants_upd_dirty.
-        destruct (name_cases n) as [[i ->]|Hn].
-        -- rewrite want_of_main. unfold wants. simpl. destruct (decide (i = id)) as [->|Hne].
-           ++ rewrite Ed, lookup_insert, lookup_alter. destruct (D !! id) as [[a b]|]; [|done].
-              simpl in *. subst d'. injection Hid as E1 E2. subst. by rewrite E1.
-           ++ assert (main_name i ≠ main_name id) by (unfold main_name; congruence).
-              rewrite lookup_insert_ne, lookup_alter_ne by done.
-              specialize (Hr (main_name i)). by rewrite want_of_main in Hr.
-        -- rewrite want_of_non_main by done. by apply wants_non_main.
-      * destruct (D !! id) eqn:ED; [done|]. rewrite Hnone by done.
-        split; [destruct Hs; split; done|]. by apply Hsame.
-  - destruct (D !! id) eqn:ED; [done|]. rewrite Hnone by done.
-    split; [destruct Hs; split; done|]. by apply Hsame.
+      rewrite lookup_alter, EA. destruct v as [a b]. simpl. f_equal. f_equal. destruct add; set_solver.
+    + destruct (Ht id v EA) as [p0 Hp]. fold n in Hp. rewrite Hp.
+      set (d' := if add then v.2 ∪ ms else v.2 ∖ ms).
+      set (s1 := set_trk <[n:=(d', p0)]> s).
+      assert (WF s1) as W1.
+      { destruct Hs as [H1 H2 H3 H4]. split; [|done|done|wfa_ins n H4]. simpl. intros x Hx. destruct (H1 x Hx). split; [done|].
+        destruct (decide (x = n)) as [->|]; [rewrite lookup_insert; eauto|by rewrite lookup_insert_ne]. }
+      split; [by apply WF_upd_dirty|]. apply relA_upd_dirty. split_and!; [done|..].
+      * intros i. simpl. rewrite Ha. destruct (decide (i = id)) as [->|]; [|by rewrite lookup_alter_ne].
+        rewrite lookup_alter, EA. done.
+      * intros i w Hw. simpl. destruct (decide (i = id)) as [->|Hne].
+        -- rewrite lookup_alter, EA in Hw. injection Hw as <-. simpl. rewrite lookup_insert. eauto.
+        -- assert (main_name i ≠ n) by (intros E; by apply main_name_inj in E).
+           rewrite lookup_alter_ne in Hw by done. rewrite lookup_insert_ne by done. by apply Ht.
+  - destruct (A !! id) eqn:EA; [simpl in Hid; done|].
+    apply Hsame; [|done|done|done|done]. destruct Hs as [H1 H2 H3 H4]. split; done.
+Qed.
+
+Lemma api_resync A F s : WF s -> relA A F s -> WF (queue_resync s) ∧ relA A F (queue_resync s).
+Proof. intros [H1 H2 H3 H4] Hr. split; [split; done|done]. Qed.
+
+(* ---------------------------------------------------------------- SetFilter *)
+Lemma filter_fold l : ∀ s0, NoDup (l.*1) ->
+  let s' := foldr (λ nm s, filter_step nm.1 nm.2 s) s0 l in
+  s_filter s' = s_filter s0 ∧ s_all s' = s_all s0 ∧ s_trk s' = s_trk s0 ∧ s_dp s' = s_dp s0
+  ∧ s_must s' = s_must s0 ∧ s_bg s' = s_bg s0 ∧ s_full s' = s_full s0
+  ∧ ∀ n, s_des s' !! n = match (list_to_map l : gmap name meta) !! n with
+                         | Some m => if needed s0 n then Some m else None
+                         | None => s_des s0 !! n end.
+Proof.
+  induction l as [|[a m] l IH]; intros s0 Hnd; simpl.
+  - split_and!; try done.
+  - apply NoDup_cons in Hnd as [Hnin Hnd]. destruct (IH s0 Hnd) as (E1 & E2 & E3 & E4 & E5 & E6 & E7 & E8).
+    set (s2 := foldr (λ nm s, filter_step nm.1 nm.2 s) s0 l) in *.
+    unfold filter_step.
+    set (s3 := if needed s2 a then set_des <[a:=m]> s2 else set_des (delete a) s2).
+    destruct (fields_upd_dirty a s3) as (F1 & F2 & F3 & F4 & F5 & F6 & F7 & F8).
+    rewrite F1, F2, F3, F4, F5, F6, F7, F8.
+    assert (needed s2 a = needed s0 a) as Hn by (unfold needed; by rewrite E1).
+    assert (s_filter s3 = s_filter s2 ∧ s_all s3 = s_all s2 ∧ s_trk s3 = s_trk s2 ∧ s_dp s3 = s_dp s2
+            ∧ s_must s3 = s_must s2 ∧ s_bg s3 = s_bg s2 ∧ s_full s3 = s_full s2) as (G1 & G2 & G3 & G4 & G5 & G6 & G7)
+      by (subst s3; destruct (needed s2 a); done).
+    rewrite G1, G2, G3, G4, G5, G6, G7. split_and!; try done.
+    intros n. subst s3. rewrite Hn. destruct (decide (n = a)) as [->|Hne].
+    + rewrite lookup_insert. destruct (needed s0 a); simpl; [by rewrite lookup_insert|by rewrite lookup_delete].
+    + rewrite lookup_insert_ne by done. rewrite <- E8.
+      destruct (needed s0 a); simpl; [by rewrite lookup_insert_ne|by rewrite lookup_delete_ne].
+Qed.
+
+Lemma set_filter_body A F s fnew :
+  WF s -> relA A F s ->
+  WF (foldr (λ nm s, filter_step nm.1 nm.2 s) (set_flt fnew s) (map_to_list (s_all s)))
+  ∧ relA A fnew (foldr (λ nm s, filter_step nm.1 nm.2 s) (set_flt fnew s) (map_to_list (s_all s))).
+Proof.
+  intros Hs (Hf & Ha & Ht).
+  destruct (filter_fold (map_to_list (s_all s)) (set_flt fnew s) (NoDup_fst_map_to_list _))
+    as (E1 & E2 & E3 & E4 & E5 & E6 & E7 & E8).
+  set (s' := foldr _ (set_flt fnew s) _) in *. simpl in E1, E2, E3, E4, E5, E6, E7.
+  rewrite list_to_map_to_list in E8.
+  destruct Hs as [H1 H2 H3 (W1 & W2 & W3)].
+  assert (∀ n, s_des s' !! n = match s_all s !! n with Some m => if needed_f fnew n then Some m else None | None => None end) as Hdes.
+  { intros n. rewrite E8. unfold needed. simpl. destruct (s_all s !! n) eqn:Ean; [done|].
+    destruct (s_des s !! n) eqn:Edn; [destruct (W1 _ _ Edn); congruence|done]. }
+  split; [split|split_and!].
+  - intros n Hn. rewrite Hdes in Hn. destruct (s_all s !! n) eqn:Ean; [|by destruct Hn].
+    rewrite E3. apply W3. eauto.
+  - by rewrite E4.
+  - by rewrite E5, E6.
+  - unfold wfa, needed. rewrite E1, E2, E3. split_and!.
+    + intros n m Hn. rewrite Hdes in Hn. destruct (s_all s !! n) eqn:Ean; [|done].
+      destruct (needed_f fnew n) eqn:En; [|done]. by simplify_eq.
+    + intros n m Hn Hnd. rewrite Hdes, Hn. by rewrite Hnd.
+    + done.
+  - done.
+  - intros i. rewrite E2. apply Ha.
+  - intros i v Hv. rewrite E3. by apply Ht.
+Qed.
+
+Lemma api_set_filter A F s f :
+  WF s -> relA A F s -> WF (set_filter f s) ∧ relA A f (set_filter f s).
+Proof.
+  intros Hs Hr. unfold set_filter.
+  destruct (s_filter s) as [g|] eqn:Eg; [by eapply set_filter_body|].
+  destruct f as [f|]; [by eapply set_filter_body|].
+  split; [done|]. destruct Hr as (Hf & Ha & Ht). split_and!; [congruence|done|done].
 Qed.
